@@ -30,6 +30,27 @@ def fp_plain(obj):
     return None
 
 
+class _NoSharing(dict):
+    """seen-map that never remembers: shared sub-objects are expanded (tree
+    view), every node gets index 0; classes are still cut at second visit by
+    name to keep recursive models finite."""
+
+    def __contains__(self, key):
+        return False
+
+    def __setitem__(self, key, value):
+        dict.__setitem__(self, key, 0)
+
+    def __len__(self):
+        return 0
+
+
+def fp_tree(obj):
+    """Like fp_config but blind to aliasing (for comparing with a rebuilt copy
+    that cannot share sub-objects, e.g. eval(repr(x)))."""
+    return fp_config(obj, _NoSharing())
+
+
 def fp_config(obj, seen=None, depth=0):
     """Snapshot of configuration reachable from an element / class / property."""
     seen = {} if seen is None else seen
